@@ -65,6 +65,27 @@ func init() {
 			return Val{Sh: rs, T: r}
 		},
 		"fmt.Errorf":        modelNewError,
+		// regexp/syntax: a successful Parse and every Simplify return a (new or existing) tree, never nil (trusted)
+		"regexp/syntax.Parse": func(e *Enc, f *frame, st *State, in *ssa.Call, args []Val, rs *Shape) Val {
+			res := e.freshVal(rs, f.prefix+in.Name())
+			nn := e.fresh("next", "Int")
+			e.assume(fmt.Sprintf("(> %s %s)", nn, st.next))
+			st.next = nn
+			e.assumeLoaded(st, res)
+			e.assume(fmt.Sprintf("(=> (= %s 0) (not (= %s 0)))", res.Sub[1].Sub[0].T, res.Sub[0].T))
+			e.assumeLibInv(st, res.Sub[0], in.Call.Value.(*ssa.Function).Signature.Results().At(0).Type().(*types.Pointer).Elem())
+			return res
+		},
+		"(*regexp/syntax.Regexp).Simplify": func(e *Enc, f *frame, st *State, in *ssa.Call, args []Val, rs *Shape) Val {
+			res := e.freshVal(rs, f.prefix+in.Name())
+			nn := e.fresh("next", "Int")
+			e.assume(fmt.Sprintf("(> %s %s)", nn, st.next))
+			st.next = nn
+			e.assumeLoaded(st, res)
+			e.assume(fmt.Sprintf("(not (= %s 0))", res.T))
+			e.assumeLibInv(st, res, in.Call.Value.(*ssa.Function).Signature.Results().At(0).Type().(*types.Pointer).Elem())
+			return res
+		},
 		"fmt.Sprintf":       modelSprintf,
 		"fmt.Sprint":        modelSprintf,
 		"strings.Join":      modelStringsJoin,
@@ -328,6 +349,9 @@ func (e *Enc) libObjectInit(st *State, ref string, t types.Type) {
 }
 
 func modelBuilderWrite(e *Enc, f *frame, st *State, in *ssa.Call, args []Val, rs *Shape) Val {
+	if e.fc != nil && e.fc.HasModifies && e.noObl == 0 && f.top {
+		e.frameCheckBase(f, st, args[0].T, "Lib#content", in, "false")
+	}
 	h := e.contentHeap(st)
 	b := args[0].T
 	old := e.sel(h, b, "")
@@ -369,6 +393,9 @@ func modelBuilderLen(e *Enc, f *frame, st *State, in *ssa.Call, args []Val, rs *
 }
 
 func modelBuilderReset(e *Enc, f *frame, st *State, in *ssa.Call, args []Val, rs *Shape) Val {
+	if e.fc != nil && e.fc.HasModifies && e.noObl == 0 && f.top {
+		e.frameCheckBase(f, st, args[0].T, "Lib#content", in, "false")
+	}
 	h := e.contentHeap(st)
 	n := &Heap{Name: h.Name, Sort: h.Sort, Prev: h}
 	n.Term = e.define("H_Lib_content", h.Sort, fmt.Sprintf("(store %s %s str_empty)", h.Term, args[0].T))
@@ -377,6 +404,9 @@ func modelBuilderReset(e *Enc, f *frame, st *State, in *ssa.Call, args []Val, rs
 }
 
 func modelBufferTruncate(e *Enc, f *frame, st *State, in *ssa.Call, args []Val, rs *Shape) Val {
+	if e.fc != nil && e.fc.HasModifies && e.noObl == 0 && f.top {
+		e.frameCheckBase(f, st, args[0].T, "Lib#content", in, "false")
+	}
 	h := e.contentHeap(st)
 	old := e.sel(h, args[0].T, "")
 	nc := e.define("sub", "Str", fmt.Sprintf("(ssub %s 0 %s)", old, args[1].T))
@@ -536,7 +566,13 @@ func (e *Enc) modelSort(f *frame, st *State, in *ssa.Call, names []string, rs *S
 		sl = e.value(f, in.Call.Args[0])
 	}
 	base := sl.Sub[0].T
-	if e.fc != nil && e.fc.HasModifies && e.noObl == 0 {
+	local := false
+	if mi, ok := in.Call.Args[0].(*ssa.MakeInterface); ok {
+		local = sliceIsLocal(mi.X, map[ssa.Value]bool{})
+	} else {
+		local = sliceIsLocal(in.Call.Args[0], map[ssa.Value]bool{})
+	}
+	if e.fc != nil && e.fc.HasModifies && e.noObl == 0 && !local {
 		for _, n := range names {
 			e.frameCheckBase(f, st, base, n, in, "false")
 		}
